@@ -94,14 +94,24 @@ package fox
 //@ fun nextClose(u string, k int) int
 //@ axiom nextClose.range: forall u string, k int :: k < nextClose(u, k)
 //@ axiom nextClose.close: forall u string, k int :: nextClose(u, k) < len(u) ==> u[nextClose(u, k)] == '}'
-//@ axiom nextClose.first: forall u string, k int, m int :: k < m && m < nextClose(u, k) && m < len(u) ==> u[m] != '}'
+//@ axiom nextClose.first: forall u string, k int, m int :: {nextClose(u, k), u[m]} k < m && m < nextClose(u, k) && m < len(u) ==> u[m] != '}'
 //@ exec nextClose = func() int { for j := k + 1; j < len(u); j++ { if u[j] == '}' { return j } }; return max(len(u), k+1) }()
 //@ -- cnt(u, i): number of '{' in u[0:i]
 //@ fun cnt(u string, i int) int
 //@ axiom cnt.zero: forall u string :: cnt(u, 0) == 0
-//@ axiom cnt.step: forall u string, i int :: i >= 0 ==> cnt(u, i+1) == cnt(u, i) + (u[i] == '{' ? 1 : 0)
+//@ axiom cnt.step: forall u string, i int :: {cnt(u, i), u[i]} i >= 0 ==> cnt(u, i+1) == cnt(u, i) + (u[i] == '{' ? 1 : 0)
 
 //@ exec cnt = func() int { n := 0; for j := 0; j < i && j < len(u); j++ { if u[j] == '{' { n++ } }; return n }()
+
+//@ -- lastOpen(u, k): index of the last '{' strictly before position k, or -1
+//@ fun lastOpen(u string, k int) int
+//@ axiom lastOpen.range: forall u string, k int :: -1 <= lastOpen(u, k) && lastOpen(u, k) < max(k, 0) && lastOpen(u, k) < max(len(u), 0)
+//@ axiom lastOpen.is: forall u string, k int :: lastOpen(u, k) >= 0 ==> u[lastOpen(u, k)] == '{'
+//@ axiom lastOpen.last: forall u string, k int, m int :: {lastOpen(u, k), u[m]} lastOpen(u, k) < m && m < k && 0 <= m && m < len(u) ==> u[m] != '{'
+//@ exec lastOpen = func() int { for j := min(k, len(u)) - 1; j >= 0; j-- { if u[j] == '{' { return j } }; return -1 }()
+//@ -- kind of the last wildcard opened before k (0 none, 1 {param}, 2 *{catch-all}) and the number of bytes between its '}' and k
+//@ fun prevKind(u string, k int) int = (lastOpen(u, k) >= 1 && u[lastOpen(u, k)-1] == '*') ? 2 : (lastOpen(u, k) >= 0 ? 1 : 0)
+//@ fun staticSince(u string, k int) int = lastOpen(u, k) >= 0 ? k - nextClose(u, lastOpen(u, k)) - 1 : k
 
 //@ -- a name character of a wildcard opened at k
 //@ pred nameChar(u string, k int, m int, endHost int) = u[m] != '/' && u[m] != '*' && u[m] != '{' && u[m] != '}' && (k < endHost ==> u[m] != '.')
@@ -117,6 +127,7 @@ package fox
 //@   ensures star-brace: result2 == nil ==> forall k int :: 0 <= k && k < len(url) && url[k] == '*' ==> k > result1 && k+1 < len(url) && url[k+1] == '{'
 //@   ensures wildcard: result2 == nil ==> forall k int :: 0 <= k && k < len(url) && url[k] == '{' ==> closedWild(url, k, result1, fox.maxParamKeyBytes, len(url))
 //@   ensures count: result2 == nil ==> result0 == cnt(url, len(url)) && result0 <= fox.maxParams
+//@   ensures catchall-gap: result2 == nil ==> forall k int :: 0 <= k && k < len(url) && url[k] == '*' && prevKind(url, k) == 2 ==> staticSince(url, k) >= 2
 //@   loop 1: invariant idx: 0 <= i && i <= len(url)+1 && (i == len(url)+1 ==> state == stateCatchAll)
 //@   loop 1: invariant eh: 0 <= endHost && endHost < len(url) && url[endHost] == '/' && forall k int :: 0 <= k && k < endHost ==> url[k] != '/'
 //@   loop 1: invariant st: state == stateDefault || state == stateParam || state == stateCatchAll
@@ -128,4 +139,7 @@ package fox
 //@   loop 1: invariant hostcatch: state == stateCatchAll ==> startParam > endHost
 //@   loop 1: invariant count: (i <= len(url) ==> paramCnt == cnt(url, i)) && paramCnt <= fox.maxParams
 //@   loop 1: invariant noname: state == stateDefault ==> !inParam
+//@   loop 1: invariant wkind: (state == stateCatchAll ==> url[startParam-1] == '*') && (state == stateParam ==> startParam == 0 || url[startParam-1] != '*')
+//@   loop 1: invariant prev: i <= len(url) ==> previous == prevKind(url, state == stateCatchAll ? startParam-1 : (state == stateParam ? startParam : i)) && countStatic == staticSince(url, state == stateCatchAll ? startParam-1 : (state == stateParam ? startParam : i))
+//@   loop 1: invariant gaps: forall k int :: 0 <= k && k < i && k < len(url) && url[k] == '*' && !(state == stateCatchAll && k == startParam-1) && prevKind(url, k) == 2 ==> staticSince(url, k) >= 2
 //@   loop 1: decreases len(url) + 1 - i
